@@ -199,22 +199,29 @@ def _harnesses(t, runner):
         n = t[1]
         vars, pre = _list_vars(n)
         vars["k"] = K
-        prog = common.make_program("l[k]", runner)
         el = _elems(n)
+        # the list itself and lists produced by operations (they must index like any other list)
+        progs = [(src, common.make_program(src, runner), els) for src, els in
+                 (("l[k]", el), ("(l + l)[k]", el + el), ("l.map(x, x)[k]", el), ("l.filter(x, true)[k]", el), ("([0] + l)[k]", [z3.IntVal(0)] + el), ("[l, l][1][k]", el))]
 
         def run(vals):
             b = {"l": _bind_list(n, vals), "k": ct.IntType(mk(SInt, K, vals["k"]))}
-            kd, r = common.outcome(lambda: prog.evaluate(dict(b)))
-            inr = z3.And(K >= 0, K < n)
-            if kd == "error":
-                return [Ob(f"C09/index/error-only-out-of-range@{runner}", z3.Not(inr))]
-            if kd != "value":
-                return [Ob(f"C09/index/escape@{runner}", z3.BoolVal(False), note=repr(r)[:100])]
-            sel = z3.Or([z3.And(K == i, tm(r) == el[i]) for i in range(n)]) if n else z3.BoolVal(False)
-            return [Ob(f"C09/index/value-in-range@{runner}", z3.And(inr, sel), observe={"k": K},
-                       note="a value only for 0 <= k < size, and then element k; negative and too-large indexes are errors")]
+            obs = []
+            for src, prog, els in progs:
+                tag = "index" if src == "l[k]" else "index-of-result"
+                kd, r = common.outcome(lambda: prog.evaluate(dict(b)))
+                inr = z3.And(K >= 0, K < len(els))
+                if kd == "error":
+                    obs.append(Ob(f"C09/{tag}/error-only-out-of-range@{runner}", z3.Not(inr), note=src))
+                elif kd != "value":
+                    obs.append(Ob(f"C09/{tag}/escape@{runner}", z3.BoolVal(False), note=f"{src}: {r!r}"[:100]))
+                else:
+                    sel = z3.Or([z3.And(K == i, tm(r) == els[i]) for i in range(len(els))]) if els else z3.BoolVal(False)
+                    obs.append(Ob(f"C09/{tag}/value-in-range@{runner}", z3.And(inr, sel), observe={"k": K},
+                                  note=f"`{src}`: a value only for 0 <= k < size, and then element k; negative and too-large indexes are errors"))
+            return obs
         return [Harness(id=f"C09/index/{n}@{runner}", vars=vars, pre=pre + kpre, run=run,
-                        witness=lambda vals: wit("index", vals, n=n), max_paths=100)]
+                        witness=lambda vals: wit("index", vals, n=n), max_paths=150)]
 
     if kind == "concat":
         n = t[1]
